@@ -69,16 +69,16 @@ func ZZ_C01_tv_integer_binary() {
 		ty = "i32"
 	}
 	src := fmt.Sprintf(`@group(0) @binding(0) var<storage, read_write> buf: array<%s, 8>;
-@compute @workgroup_size(1) fn main() { buf[2] = buf[0] %s buf[1]; }`, ty, t.op)
+@compute @workgroup_size(1) fn main() { buf[2] = buf[0] %s buf[1]; }`, ty, t.Op)
 	in := zzInputs()
 	out, ok := zzCompileAndRun(src, in, zzOptions())
 	if ok {
 		zz.Assert(len(out) == zzBufWords, "buffer size changed")
 		var want uint32
 		if signed {
-			want = uint32(t.i32(int32(in[0]), int32(in[1])))
+			want = uint32(t.I32(int32(in[0]), int32(in[1])))
 		} else {
-			want = t.u32(in[0], in[1])
+			want = t.U32(in[0], in[1])
 		}
 		for i := range out {
 			if i == 2 {
@@ -92,16 +92,16 @@ func ZZ_C01_tv_integer_binary() {
 }
 
 func zzRunTemplate(t zzTemplate) {
-	src := fmt.Sprintf("@group(0) @binding(0) var<storage, read_write> buf: array<%s, 8>;\n%s\n@compute @workgroup_size(1) fn main() {\n%s\n}", t.ty, t.decl, t.body)
-	zz.Cell(t.name)
+	src := fmt.Sprintf("@group(0) @binding(0) var<storage, read_write> buf: array<%s, 8>;\n%s\n@compute @workgroup_size(1) fn main() {\n%s\n}", t.Ty, t.Decl, t.Body)
+	zz.Cell(t.Name)
 	in := zzInputs()
 	want := append([]uint32(nil), in...)
-	t.ref(want)
+	t.Ref(want)
 	out, ok := zzCompileAndRun(src, in, zzOptions())
 	if ok {
 		zz.Assert(len(out) == zzBufWords, "buffer size changed")
 		for i := range out {
-			zz.Assert(out[i] == want[i], "template "+t.name+": final buffer differs from the WGSL meaning")
+			zz.Assert(out[i] == want[i], "template "+t.Name+": final buffer differs from the WGSL meaning")
 		}
 	}
 	zz.Reach("end")
